@@ -193,6 +193,61 @@ class Terms(object):
         t = Terms(nested, helpers=self.helpers, outer=outer)
         return _Inner(t, sub, call, host)
 
+    def filtered(self, t):
+        """How the collection ``t`` is populated, whichever way it is written:
+        a comprehension, or a fresh set/list that loops add to.  Returns a list
+        of (iterable term, element term, [(condition term, polarity)...]);
+        None when ``t`` is not recognisably built that way."""
+        if t[0] == "new":
+            inner = t[2]
+        else:
+            inner = t
+        if inner[0] in ("setcomp", "listcomp", "genexp") and \
+                len(inner[2]) == 1:
+            it, conds = inner[2][0]
+            out = []
+            for c in conds:
+                pol = True
+                while c[0] == "not":
+                    c, pol = c[1], not pol
+                out.append((c, pol))
+            return [(it, inner[1], out)]
+        if inner[0] == "call" and inner[1][0] == "global" and \
+                inner[1][1] in ("set", "list", "frozenset", "sorted") and \
+                len(inner[2]) == 1:
+            return self.filtered(inner[2][0])
+        if t[0] != "new":
+            return None
+        empty = (inner[0] in ("list", "set") and len(inner) == 1) or (
+            inner[0] == "call" and not inner[2] and not inner[3])
+        if not empty:
+            return None
+        out = []
+        for c in ast.walk(self.fn):
+            if not (isinstance(c, ast.Call) and
+                    isinstance(c.func, ast.Attribute) and
+                    c.func.attr in ("add", "append") and len(c.args) == 1
+                    and _owner(c, self.fn)):
+                continue
+            n = self.cfg.node_containing(c)
+            if self.term(c.func.value, n) != t:
+                continue
+            lp = c._parent
+            while lp is not None and not isinstance(lp, ast.For):
+                lp = lp._parent
+            if lp is None:
+                return None
+            head = self.cfg.loop_head[id(lp)]
+            it = self.term(lp.iter, head)
+            conds = []
+            for a in self.cfg.nodes:
+                if a.kind == "assume" and a.ast is not None and \
+                        _inside_fn(a.ast, lp) and \
+                        self.cfg.dominates(a, n):
+                    conds.append(self.cond(a.ast, a, a.polarity))
+            out.append((it, self.term(c.args[0], n), conds))
+        return out or None
+
     def must_pass(self, src, pred, targets=None):
         """cfg.must_pass on the executions allowed by the hypotheses."""
         avoid = [self.cfg.nodes[i] for i in self.dead]
@@ -922,6 +977,82 @@ def presence(t, pol):
         g = t[3] if t[2] == ("const", None) else t[2]
         if g[0] == "get" and len(g) == 3:
             return g[1], g[2], not pol
+    return None
+
+
+def reify(t):
+    """An ast expression for a term (leaves that have no source form become
+    names that spell the term): lets the expression-level engines (constant
+    folding, bit provenance, linear forms) work on the value with all
+    temporaries resolved."""
+    k = t[0]
+    if k == "const":
+        return ast.Constant(value=t[1])
+    if k in ("param", "local"):
+        return ast.Name(id=t[1], ctx=ast.Load())
+    if k == "global":
+        parts = t[1].split(".")
+        e = ast.Name(id=parts[0], ctx=ast.Load())
+        for p_ in parts[1:]:
+            e = ast.Attribute(value=e, attr=p_, ctx=ast.Load())
+        return e
+    if k in ("attr", "attrv"):
+        return ast.Attribute(value=reify(t[1]), attr=t[2], ctx=ast.Load())
+    if k == "item":
+        return ast.Subscript(value=reify(t[1]), slice=reify(t[2]),
+                             ctx=ast.Load())
+    if k == "comp":
+        return ast.Subscript(value=reify(t[1]),
+                             slice=ast.Constant(value=t[2]), ctx=ast.Load())
+    if k == "slice":
+        f = lambda x: None if x == ("const", None) else reify(x)  # noqa
+        return ast.Slice(lower=f(t[1]), upper=f(t[2]), step=f(t[3]))
+    if k == "binop":
+        return ast.BinOp(left=reify(t[2]), op=getattr(ast, t[1])(),
+                         right=reify(t[3]))
+    if k == "unop":
+        return ast.UnaryOp(op=getattr(ast, t[1])(), operand=reify(t[2]))
+    if k == "not":
+        return ast.UnaryOp(op=ast.Not(), operand=reify(t[1]))
+    if k == "cmp":
+        return ast.Compare(left=reify(t[2]), ops=[getattr(ast, t[1])()],
+                           comparators=[reify(t[3])])
+    if k in ("and", "or"):
+        return ast.BoolOp(op=ast.And() if k == "and" else ast.Or(),
+                          values=[reify(x) for x in t[1:]])
+    if k == "ite":
+        return ast.IfExp(test=reify(t[1]), body=reify(t[2]),
+                         orelse=reify(t[3]))
+    if k == "tuple":
+        return ast.Tuple(elts=[reify(x) for x in t[1:]], ctx=ast.Load())
+    if k == "new":
+        return reify(t[2])
+    if k == "list":
+        return ast.List(elts=[reify(x) for x in t[1:]], ctx=ast.Load())
+    if k == "call":
+        return ast.Call(func=reify(t[1]), args=[reify(x) for x in t[2]],
+                        keywords=[ast.keyword(arg=a, value=reify(b))
+                                  for a, b in t[3]])
+    if k == "get":
+        return ast.Call(func=ast.Attribute(value=reify(t[1]), attr="get",
+                                           ctx=ast.Load()),
+                        args=[reify(x) for x in t[2:]], keywords=[])
+    return ast.Name(id="<%s>" % show(t), ctx=ast.Load())
+
+
+def bit_test(t):
+    """(word, index) when the condition term tests one bit of a word:
+    ``(w >> i) & 1`` or ``w & (1 << i)`` (optionally compared with 0/1)."""
+    if t[0] == "cmp" and t[1] == "Eq":
+        for a, b in ((t[2], t[3]), (t[3], t[2])):
+            if b == ("const", 1):
+                return bit_test(a)
+    if t[0] == "binop" and t[1] == "BitAnd":
+        for a, b in ((t[2], t[3]), (t[3], t[2])):
+            if b == ("const", 1) and a[0] == "binop" and a[1] == "RShift":
+                return a[2], a[3]
+            if b[0] == "binop" and b[1] == "LShift" and b[2] == ("const", 1):
+                return a, b[3]
     return None
 
 
